@@ -199,6 +199,12 @@ func engineGen(g *eng.Gen, variant string, i int) {
 		g.CatchBias = i%3 == 1
 	case "nested":
 		g.NestedDefaults = true
+	case "long":
+		g.LongSlices = true
+		g.CatchBias = i%4 == 1
+		if i%2 == 0 {
+			g.TopKind = "slice"
+		}
 	case "deep":
 		g.Deep = true
 		g.NoPosts = i%2 == 0
